@@ -532,6 +532,8 @@ func filterObs(obs []Ob, rulePrefix string) []Ob {
 }
 
 var c15Canaries = []Canary{
+	{Name: "r7-auth-resend-guard", ExpectKey: "C15.R2#auth-resend", Edits: []Edit{{File: "tq/basic_download.go", Find: "\nfunc (a *basicDownloadAdapter) makeRequest(t *Transfer, req *http.Request) (*http.Response, error) {\n\tres, err := a.doHTTP(t, req)\n\tif errors.IsAuthError(err) && len(req.Header.Get(\"Authorization\")) == 0 {\n\t\treturn a.makeRequest(t, req)\n\t}\n\n", Repl: "\nfunc (a *basicDownloadAdapter) makeRequest(t *Transfer, req *http.Request) (*http.Response, error) {\n\tres, err := a.doHTTP(t, req)\n\tif errors.IsAuthError(err) && !t.Authenticated {\n\t\treturn a.makeRequest(t, req)\n\t}\n\n"}}},
+	{Name: "r7-expiry-from-response-time", ExpectKey: "C15.R1#batch:action-lifetime", Edits: []Edit{{File: "tq/api.go", Find: "\t}\n\n\tbRes.endpoint = c.Endpoints.Endpoint(bReq.Operation, remote)\n\trequestedAt := time.Now()\n\n\treq, err := c.NewRequest(\"POST\", bRes.endpoint, \"objects/batch\", bReq)\n\tif err != nil {\n", Repl: "\t}\n\n\tbRes.endpoint = c.Endpoints.Endpoint(bReq.Operation, remote)\n\n\treq, err := c.NewRequest(\"POST\", bRes.endpoint, \"objects/batch\", bReq)\n\tif err != nil {\n"}, {File: "tq/api.go", Find: "\t\treturn nil, lfshttp.NewStatusCodeError(res)\n\t}\n\n\t// A response may contain null where an object or an action is\n\t// expected. Such an entry names nothing: drop it here, so that the\n\t// transfer queue reports the objects the response does not list\n", Repl: "\t\treturn nil, lfshttp.NewStatusCodeError(res)\n\t}\n\n\tcreatedAt := time.Now()\n\n\t// A response may contain null where an object or an action is\n\t// expected. Such an entry names nothing: drop it here, so that the\n\t// transfer queue reports the objects the response does not list\n"}, {File: "tq/api.go", Find: "\t\t\t\tdelete(obj.Actions, rel)\n\t\t\t\tcontinue\n\t\t\t}\n\t\t\ta.createdAt = requestedAt\n\t\t}\n\t\tfor rel, a := range obj.Links {\n\t\t\tif a == nil {\n", Repl: "\t\t\t\tdelete(obj.Actions, rel)\n\t\t\t\tcontinue\n\t\t\t}\n\t\t\ta.createdAt = createdAt\n\t\t}\n\t\tfor rel, a := range obj.Links {\n\t\t\tif a == nil {\n"}}},
 	{Name: "f16-zero-retry-delay-ignored", ExpectKey: "C15.R4", Edits: []Edit{{File: "tq/manifest.go", Find: "\t\tdownloadAdapterFuncs: make(map[string]NewAdapterFunc),\n\t\tuploadAdapterFuncs:   make(map[string]NewAdapterFunc),\n\t\tsshTransfer:          sshTransfer,\n\t\tmaxRetryDelay:        defaultMaxRetryDelay,\n\t}\n\n\tvar tusAllowed bool\n", Repl: "\t\tdownloadAdapterFuncs: make(map[string]NewAdapterFunc),\n\t\tuploadAdapterFuncs:   make(map[string]NewAdapterFunc),\n\t\tsshTransfer:          sshTransfer,\n\t}\n\n\tvar tusAllowed bool\n"}, {File: "tq/manifest.go", Find: "\tif m.maxRetries < 1 {\n\t\tm.maxRetries = defaultMaxRetries\n\t}\n\tif m.maxRetryDelay < 0 {\n\t\tm.maxRetryDelay = defaultMaxRetryDelay\n\t}\n\n", Repl: "\tif m.maxRetries < 1 {\n\t\tm.maxRetries = defaultMaxRetries\n\t}\n\tif m.maxRetryDelay < 1 {\n\t\tm.maxRetryDelay = defaultMaxRetryDelay\n\t}\n\n"}}},
 	{Name: "r6-retry-send-lost", ExpectKey: "C15.R2#", Edits: []Edit{{File: "tq/transfer_queue.go", Find: "\tif res.Error != nil {\n\t\t// If there was an error encountered when processing the\n\t\t// transfer (res.Transfer), handle the error as is appropriate:\n\t\tif readyTime, canRetry := q.canRetryObjectLater(oid, res.Error); canRetry {\n\t\t\t// If the object can't be retried now, but can be\n\t\t\t// after a certain period of time, send it to\n\t\t\t// the retry channel with a time when it's ready.\n\t\t\ttracerx.Printf(\"tq: retrying object %s after %.2fs\", oid, time.Until(readyTime).Seconds())\n\t\t\tq.trMutex.Lock()\n\t\t\tobjects, ok := q.transfers[oid]\n\t\t\tq.trMutex.Unlock()\n\n\t\t\tif ok {\n\t\t\t\tt := objects.First()\n\t\t\t\tt.retryLaterTime = readyTime\n\t\t\t\tretries <- t\n\t\t\t} else {\n\t\t\t\tq.errorc <- res.Error\n\t\t\t}\n\t\t} else if q.canRetryObject(oid, res.Error) {\n\t\t\t// If the object can be retried, send it on the retries\n\t\t\t// channel, where it will be read at the call-site and\n\t\t\t// its retry count will be incremented.\n\t\t\ttracerx.Printf(\"tq: retrying object %s: %s\", oid, res.Error)\n\n\t\t\tq.trMutex.Lock()\n\t\t\tobjects, ok := q.transfers[oid]\n\t\t\tq.trMutex.Unlock()\n\n\t\t\tif ok {\n\t\t\t\tretries <- objects.First()\n\t\t\t} else {\n\t\t\t\tq.errorc <- res.Error\n\t\t\t}\n", Repl: "\tif res.Error != nil {\n\t\t// If there was an error encountered when processing the\n\t\t// transfer (res.Transfer), handle the error as is appropriate:\n\t\treadyTime, retryLater := q.canRetryLater(res.Error)\n\t\tif retryLater || q.canRetryObject(oid, res.Error) {\n\t\t\t// If the object can be retried, send it on the retries\n\t\t\t// channel, where it will be read at the call-site and\n\t\t\t// its retry count will be incremented. If it can't be\n\t\t\t// retried now, but can be after a certain period of\n\t\t\t// time, it carries the time when it's ready.\n\t\t\tif retryLater {\n\t\t\t\ttracerx.Printf(\"tq: retrying object %s after %.2fs\", oid, time.Until(readyTime).Seconds())\n\t\t\t} else {\n\t\t\t\ttracerx.Printf(\"tq: retrying object %s: %s\", oid, res.Error)\n\t\t\t}\n\n\t\t\tq.trMutex.Lock()\n\t\t\tobjects, ok := q.transfers[oid]\n\t\t\tq.trMutex.Unlock()\n\n\t\t\tif ok {\n\t\t\t\tt := objects.First()\n\t\t\t\tif retryLater {\n\t\t\t\t\tt.retryLaterTime = readyTime\n\t\t\t\t}\n\t\t\t\tretries <- t\n\t\t\t} else {\n\t\t\t\tq.errorc <- res.Error\n\t\t\t}\n"}}},
 	{Name: "r5-tus-loses-retry-after", ExpectKey: "C15.R4#retry-later-survives", Edits: []Edit{{File: "tq/tus_upload.go", Find: "\tres, err = a.doHTTP(t, req)\n\tif err != nil {\n\t\tif res != nil && res.StatusCode == 429 {", Repl: "\tres, err = a.doHTTP(t, req)\n\tif err != nil {\n\t\tif res != nil && res.StatusCode == 429 && offset < 0 {"}}},
